@@ -19,6 +19,8 @@ import MF.Gen.WalkGo
 import MF.Model.Print
 import MF.Gen.SqlGo
 import MF.Model.Handlers
+import MF.Model.TypeParse
+import MF.Spec.TypeReads
 open MF MF.Lex
 
 def hx (b : Bytes) : String := if b.isEmpty then "-" else toHex b
@@ -170,6 +172,10 @@ def handle (line : String) : String :=
   | ["EXPR", h] =>
     match ofHex? (if h == "-" then "" else h) with
     | some buf => Expr.exprRunRT buf
+    | none => "BADREQ"
+  | ["TYPE", h] =>
+    match ofHex? (if h == "-" then "" else h) with
+    | some buf => TypeG.typeRunRT buf
     | none => "BADREQ"
   | ["POS", h, a, b] =>
     match ofHex? (if h == "-" then "" else h), a.toInt?, b.toInt? with
